@@ -1008,8 +1008,20 @@ fn main() {
             let ne = 5 + rng.below(if many { 200 } else { 30 });
             let gap = 1 + rng.below(3) as i32;
             let mut input: Vec<i32> = (0..ne as i32).map(|i| i * 2 * gap).collect();
+            // arrangement of the input: increasing, decreasing, shuffled; repeated values either next to their twin
+            // (the input stays monotone, not strictly) or appended at the end
+            let arrangement = rng.below(4);
             if rng.chance(0.5) {
-                rng.shuffle(&mut input);
+                for _ in 0..1 + rng.below(3) {
+                    let j = rng.below(input.len());
+                    let d = input[j];
+                    input.insert(j, d);
+                }
+            }
+            match arrangement {
+                0 => {}
+                1 => input.reverse(),
+                _ => rng.shuffle(&mut input),
             }
             if rng.chance(0.3) {
                 let d = input[rng.below(ne)];
